@@ -211,4 +211,17 @@ PROPS["C12"] = dict(
     technique="contract-based deductive verification (Verus on mechanically extracted real bodies)",
 )
 
+PROPS["C16"] = dict(
+    level="proof",
+    text="reported target queries/assignments: Compiler::compile_query reports every external query it builds with exactly the runtime prefix+path; Assignment::targets lists every target written; at runtime each access site (Query::resolve, Target::insert, del, exists, unnest) touches exactly its own path (or the root of its prefix) - so every runtime location is equal to, or a descendant/ancestor of, a reported path. Verus on extracted real bodies + frame scan",
+    verus=["v_reported_paths", "v_target_ops"],
+    kani=[],
+    scans=["reported_paths_frame", "target_call_sites"],
+    trusted=["verus prelude compiler_q.rs (Compiler with the two report lists; compile_query_target as a child contract that only appends)",
+             "frame (syntactic scan): Query values are only constructed in compile_query; compile_assignment pushes every external target of Assignment::targets(); ProgramInfo is filled from the two lists",
+             "the literal `get` rule (event root pushed for calls named get) is read, not verified"],
+    not_covered=["that every AST query node is compiled through compile_query (Compiler::compile_expr dispatch, whole-compiler bookkeeping)", "dynamic paths inside stdlib functions (get/set/remove with runtime paths) beyond the `get` rule"],
+    technique="contract-based deductive verification (Verus on mechanically extracted real bodies) + syntactic frame scan",
+)
+
 HOOK_COMMITS = ["8978857", "33091a8"]
